@@ -31,7 +31,7 @@ type c12case struct {
 	Admit   bool   `json:"admitted"`
 	Deny    string `json:"denied_by,omitempty"` // off | level (logger one step more severe than the record; only possible for Fatal)
 	Format  string `json:"format"`
-	Kind    string `json:"logger"` // root | child | default
+	Kind    string `json:"logger"`                       // root | child | default
 	Huge    bool   `json:"huge_argument_list,omitempty"` // 1100 arguments instead of 4
 	Bench   bool   `json:"production_process_with_a_-bench_argument,omitempty"`
 }
